@@ -110,7 +110,8 @@ pub fn run_workload(sub: u64, acc: &mut Acc, ctx: &Ctx, _thorough: bool) {
         _ => {}
     }
     args.extend(gen_harmless_flags(&mut Rng::new(sub ^ 0xF1A6), &["-i", "-S"]));
-    args.push("foo".into());
+    // the same lines are selected by all of these; some could match a NUL byte themselves
+    args.push(["foo", "foo", "foo[^z]?", "(?s-u)foo.?", "foo\\W?"][Rng::new(sub ^ 0x9A7).below(5)].into());
     if w.via_stdin {
         // no path: rg searches standard input (treated like an explicitly named file)
     } else if w.explicit {
